@@ -183,6 +183,10 @@ func builtinGlobalParseFloat(call FunctionCall) Value {
 
 func encodeDecodeURI(call FunctionCall, escape *regexp.Regexp) Value {
 	value := call.Argument(0)
+	if obj := value.object(); obj != nil {
+		// ToString of an object can be a UTF-16 backed string; keep its code units.
+		value = obj.DefaultValue(defaultValueHintString)
+	}
 	var input []uint16
 	switch vl := value.value.(type) {
 	case []uint16:
